@@ -15,6 +15,7 @@ package dnsserver
 import (
 	"context"
 	"encoding/binary"
+	"encoding/json"
 	"errors"
 	"fmt"
 	"io"
@@ -804,6 +805,70 @@ func c01ByteCases(all bool, emit func(c01ByteCase)) {
 			}
 		}
 	}
+}
+
+// ---- Exports for the loopback harness (package dnsserver_test) ------------------------
+
+// VerifC01Handler is H.
+var VerifC01Handler Handler = c01Handler{}
+
+// VerifC01Tuple is the comparable part of a response.
+type VerifC01Tuple = c01Tuple
+
+// VerifC01Expect returns the kind of H's behaviour for a question and the
+// tuple a client must see (SERVFAIL without records when H returns an error).
+func VerifC01Expect(q dns.Question) (kind string, want VerifC01Tuple) {
+	res := c01H(q.Name, q.Qtype, q.Qclass)
+
+	return res.Kind, c01TupleOfResult(res)
+}
+
+// VerifC01TupleOf extracts the tuple of a response.
+func VerifC01TupleOf(m *dns.Msg) VerifC01Tuple { return c01TupleOf(m) }
+
+// VerifC01Same compares two tuples; with prefix == true got may be a prefix
+// of want section by section (truncation).
+func VerifC01Same(got, want VerifC01Tuple, prefix bool) bool {
+	if !prefix {
+		return got.equal(want)
+	}
+
+	return got.Rcode == want.Rcode && c01IsPrefix(got.An, want.An) && c01IsPrefix(got.Ns, want.Ns) && c01IsPrefix(got.Ex, want.Ex)
+}
+
+// VerifC01FullLen is the size of the untruncated response to req.
+func VerifC01FullLen(req *dns.Msg) int {
+	q := req.Question[0]
+
+	return c01FullLen(req, c01H(q.Name, q.Qtype, q.Qclass))
+}
+
+// VerifC01Echo returns the echo findings (QR, ID, question) as strings.
+func VerifC01Echo(where string, req *dns.Msg, resp *dns.Msg, ignoreID bool) []vrt.Finding {
+	return c01EchoFindings(where, req, nil, resp, ignoreID)
+}
+
+// VerifC01LongName is the name of maximal length.
+func VerifC01LongName() string { return c01QueryNames()[4] }
+
+// VerifC01JSONSection converts the Answer / Authority / Extra members of a
+// JSON answer into canonical record strings.
+func VerifC01JSONSection(raw []byte) (status int, qname string, qtype uint16, an, ex []string, err error) {
+	jm := &c01JSONMsg{}
+	if err = json.Unmarshal(raw, jm); err != nil {
+		return 0, "", 0, nil, nil, err
+	}
+	if jm.Status == nil || len(jm.Question) != 1 {
+		return 0, "", 0, nil, nil, fmt.Errorf("json answer without Status or with %d questions", len(jm.Question))
+	}
+	if an, err = c01JSONSection(jm.Answer); err != nil {
+		return 0, "", 0, nil, nil, err
+	}
+	if ex, err = c01JSONSection(jm.Extra); err != nil {
+		return 0, "", 0, nil, nil, err
+	}
+
+	return *jm.Status, jm.Question[0].Name, jm.Question[0].Type, an, ex, nil
 }
 
 // ---- Test --------------------------------------------------------------------------
